@@ -399,7 +399,7 @@ def share_sum_blocks(B, env, S, direction):
 # ---- C14 scale statistics ---------------------------------------------------------------
 
 
-def scale_blocks(B, env, cc, values, orientation, what):
+def scale_blocks(B, env, cc, values, orientation, what, means=None):
     """respondent-level statistics of the opposing dimension's numeric values per vector:
     'mean'  = sum_D v c / sum_D c
     'sd'    = sqrt( sum_D c (v - mean)^2 / sum_D c )        (population standard deviation)
@@ -422,11 +422,14 @@ def scale_blocks(B, env, cc, values, orientation, what):
         return B.bnot(B.isnan(rd(values, k)))
 
     out = []
-    for n_vec, c, isdiff in vec_blocks:
-        def stat(x, c=c, isdiff=isdiff):
+    for bi, (n_vec, c, isdiff) in enumerate(vec_blocks):
+        def stat(x, c=c, isdiff=isdiff, bi=bi):
             den = B.Sum(n_opp, lambda k: B.ite(has_value(k), c(x, k), 0.0))
-            num = B.Sum(n_opp, lambda k: B.ite(has_value(k), rd(values, k) * c(x, k), 0.0))
-            mean = num / den
+            if means is not None:
+                mean = rd(means[bi], x)  # the scale mean as delivered by its own contract
+            else:
+                num = B.Sum(n_opp, lambda k: B.ite(has_value(k), rd(values, k) * c(x, k), 0.0))
+                mean = num / den
             if what == "mean":
                 r = mean
             else:
@@ -436,3 +439,14 @@ def scale_blocks(B, env, cc, values, orientation, what):
 
         out.append(B.spec_tensor((n_vec,), stat))
     return out
+
+
+# ---- C13 pairwise column tests -------------------------------------------------------------
+
+
+def tstat_cell(B, p, n, pa, na):
+    """t = (p_b - p_a) / sqrt(|p_a(1-p_a)/n_a + p_b(1-p_b)/n_b|)   (b = this column, a =
+    selected column; the absolute value only matters for subtotal differences, where the
+    statement's radicand can be negative)"""
+    var = p * (1.0 - p) / n + pa * (1.0 - pa) / na
+    return (p - pa) / B.sqrt(abs(var))
